@@ -39,6 +39,49 @@ theorem refBuf_congr {s s' : State} (ht : s'.tasks = s.tasks) (ha : s'.active = 
     refBuf s' x = refBuf s x := by
   cases x <;> simp [refBuf, ht, ha]
 
+/-- the references as a function of the task table and the active entries only -/
+def refBufF (tasks : Nat → Option Task) (active : Nat → Nat → Option Nat) : Ref → Option Nat
+  | .task t => optKindBuf (tasks t)
+  | .act g i => active g i
+
+theorem refBuf_eq (s : State) (x : Ref) : refBuf s x = refBufF s.tasks s.active x := by
+  cases x with
+  | task t => simp only [refBuf, refBufF, optKindBuf]; cases s.tasks t <;> rfl
+  | act g i => rfl
+
+theorem refBufF_upd_tasks (tasks : Nat → Option Task) (active : Nat → Nat → Option Nat) (t : Nat) (v : Option Task)
+    (x : Ref) : refBufF (upd tasks t v) active x = if x = .task t then optKindBuf v else refBufF tasks active x := by
+  cases x with
+  | task u =>
+    simp only [refBufF]
+    by_cases e : u = t
+    · subst e; simp
+    · rw [upd_other _ _ _ e]
+      have : (Ref.task u = Ref.task t) = False := by simp [e]
+      simp only [this, if_false]
+  | act g i => simp [refBufF]
+
+theorem refBufF_upd_active (tasks : Nat → Option Task) (active : Nat → Nat → Option Nat) (g i : Nat) (v : Option Nat)
+    (x : Ref) : refBufF tasks (upd2 active g i v) x = if x = .act g i then v else refBufF tasks active x := by
+  cases x with
+  | task u => simp [refBufF]
+  | act g' i' =>
+    simp only [refBufF]
+    by_cases e : g' = g ∧ i' = i
+    · obtain ⟨e1, e2⟩ := e; subst e1; subst e2; simp
+    · rw [upd2_other _ _ _ _ e]
+      have : (Ref.act g' i' = Ref.act g i) = False := by
+        simp only [Ref.act.injEq, eq_iff_iff, iff_false]; exact e
+      simp only [this, if_false]
+
+@[simp] theorem optKindBuf_none : optKindBuf none = none := rfl
+@[simp] theorem optKindBuf_some (k : Kind) (st : TSt) : optKindBuf (some ⟨k, st⟩) = kindBuf k := rfl
+@[simp] theorem kindBuf_trav (b : Nat) : kindBuf (.traverse b) = some b := rfl
+@[simp] theorem kindBuf_reemit (b : Nat) : kindBuf (.reemit b) = some b := rfl
+@[simp] theorem kindBuf_source (a : Nat) (l : List Nat) : kindBuf (.source a l) = none := rfl
+@[simp] theorem kindBuf_cont (a n : Nat) (l : List Nat) : kindBuf (.contSource a n l) = none := rfl
+@[simp] theorem kindBuf_flush (a : Nat) : kindBuf (.flush a) = none := rfl
+
 /-- a task is replaced by one that refers to the same buffer (or both to none) -/
 theorem own_task_same {cfg : Cfg} {s s' : State} (h : Own cfg s) {t : Nat} {v : Option Task}
     (hp : s'.pool = s.pool) (ha : s'.active = s.active) (ht : s'.tasks = upd s.tasks t v)
@@ -209,10 +252,10 @@ theorem step_premature {cfg : Cfg} {s s' : State} {g t' : Nat} (h : step cfg s (
     ∃ b, (s.largest g).1 ≠ NDIR ∧ 0 < (s.largest g).2 ∧ lockHeld cfg s (.sub g) = false ∧
       t' < cfg.taskCap ∧ s.tasks t' = none ∧ s.active g (s.largest g).1 = some b ∧
       s' = { s with active := upd2 s.active g (s.largest g).1 none,
-                    tasks := upd s.tasks t' (some ⟨if 0 < (s.largest g).1 then .traverse b else .reemit b, .queued⟩),
+                    tasks := upd s.tasks t' (some ⟨fullKind (s.largest g).1 b, .queued⟩),
                     largest := upd s.largest g (recomputeLargest
                       { s with active := upd2 s.active g (s.largest g).1 none,
-                               tasks := upd s.tasks t' (some ⟨if 0 < (s.largest g).1 then .traverse b else .reemit b, .queued⟩) } g) } := by
+                               tasks := upd s.tasks t' (some ⟨fullKind (s.largest g).1 b, .queued⟩) } g) } := by
   simp only [step] at h
   by_cases hg : ((s.largest g).1 ≠ NDIR ∧ 0 < (s.largest g).2 ∧ (!lockHeld cfg s (.sub g)) = true ∧ taskFree cfg s t' = true)
   · rw [if_pos hg] at h
